@@ -228,3 +228,191 @@ def arg_or_kw(call: ast.Call, index: int, name: str) -> Optional[ast.AST]:
     if index < len(call.args) and not any(isinstance(a, ast.Starred) for a in call.args[: index + 1]):
         return call.args[index]
     return kwarg(call, name)
+
+
+class NotLiteral(Exception):
+    pass
+
+
+def fold_literal(node: ast.AST, env: Optional[dict] = None, consts: Optional[dict] = None, depth: int = 0):
+    """Constant-fold a *data* expression built from literals only: displays, comprehensions over literal
+    iterables, ``ord/chr/len/str/int/float/complex/tuple/list/range/zip/enumerate/sorted/reversed``,
+    ``itertools.product/permutations/combinations``, arithmetic, comparisons, conditional expressions, names of
+    other module-level literals (``consts``: name -> ast). Raises NotLiteral for anything else. Only literal data
+    written in the source is combined; no function of the repository is involved."""
+    import itertools
+
+    env = env or {}
+    consts = consts or {}
+    if depth > 40:
+        raise NotLiteral("too deep")
+    ev = lambda n, e=None: fold_literal(n, env if e is None else e, consts, depth + 1)  # noqa: E731
+    if isinstance(node, ast.Constant):
+        return node.value
+    if isinstance(node, ast.Name):
+        if node.id in env:
+            return env[node.id]
+        if node.id in consts:
+            return fold_literal(consts[node.id], {}, {k: v for k, v in consts.items() if k != node.id}, depth + 1)
+        raise NotLiteral(f"name {node.id}")
+    if isinstance(node, (ast.Tuple, ast.List, ast.Set)):
+        vals = []
+        for e in node.elts:
+            if isinstance(e, ast.Starred):
+                vals.extend(ev(e.value))
+            else:
+                vals.append(ev(e))
+        return tuple(vals) if isinstance(node, ast.Tuple) else (list(vals) if isinstance(node, ast.List) else set(vals))
+    if isinstance(node, ast.Dict):
+        out = {}
+        for k, v in zip(node.keys, node.values):
+            if k is None:
+                out.update(ev(v))
+            else:
+                out[ev(k)] = ev(v)
+        return out
+    if isinstance(node, ast.UnaryOp):
+        v = ev(node.operand)
+        if isinstance(node.op, ast.USub):
+            return -v
+        if isinstance(node.op, ast.UAdd):
+            return +v
+        if isinstance(node.op, ast.Not):
+            return not v
+        raise NotLiteral("unary")
+    if isinstance(node, ast.BinOp):
+        l, r = ev(node.left), ev(node.right)
+        try:
+            if isinstance(node.op, ast.Add):
+                return l + r
+            if isinstance(node.op, ast.Sub):
+                return l - r
+            if isinstance(node.op, ast.Mult):
+                return l * r
+            if isinstance(node.op, ast.Div):
+                return l / r
+            if isinstance(node.op, ast.FloorDiv):
+                return l // r
+            if isinstance(node.op, ast.Mod):
+                return l % r
+            if isinstance(node.op, ast.Pow) and isinstance(r, (int, float)) and abs(r) < 64:
+                return l ** r
+        except Exception as e:  # noqa
+            raise NotLiteral(str(e))
+        raise NotLiteral("binop")
+    if isinstance(node, ast.BoolOp):
+        vals = [ev(v) for v in node.values]
+        res = vals[0]
+        for v in vals[1:]:
+            res = (res and v) if isinstance(node.op, ast.And) else (res or v)
+        return res
+    if isinstance(node, ast.Compare):
+        left = ev(node.left)
+        for op, c in zip(node.ops, node.comparators):
+            right = ev(c)
+            ok = {ast.Eq: lambda a, b: a == b, ast.NotEq: lambda a, b: a != b, ast.Lt: lambda a, b: a < b, ast.LtE: lambda a, b: a <= b, ast.Gt: lambda a, b: a > b, ast.GtE: lambda a, b: a >= b, ast.In: lambda a, b: a in b, ast.NotIn: lambda a, b: a not in b, ast.Is: lambda a, b: a is b, ast.IsNot: lambda a, b: a is not b}[type(op)](left, right)
+            if not ok:
+                return False
+            left = right
+        return True
+    if isinstance(node, ast.IfExp):
+        return ev(node.body) if ev(node.test) else ev(node.orelse)
+    if isinstance(node, ast.Subscript):
+        base = ev(node.value)
+        if isinstance(node.slice, ast.Slice):
+            lo = ev(node.slice.lower) if node.slice.lower else None
+            hi = ev(node.slice.upper) if node.slice.upper else None
+            st = ev(node.slice.step) if node.slice.step else None
+            return base[lo:hi:st]
+        try:
+            return base[ev(node.slice)]
+        except Exception as e:  # noqa
+            raise NotLiteral(str(e))
+    if isinstance(node, ast.JoinedStr):
+        out = ""
+        for v in node.values:
+            if isinstance(v, ast.Constant):
+                out += str(v.value)
+            elif isinstance(v, ast.FormattedValue) and v.conversion == -1 and v.format_spec is None:
+                out += str(ev(v.value))
+            else:
+                raise NotLiteral("format spec")
+        return out
+    if isinstance(node, (ast.ListComp, ast.SetComp, ast.GeneratorExp, ast.DictComp)):
+        results = []
+
+        def rec(i, e):
+            if i == len(node.generators):
+                if isinstance(node, ast.DictComp):
+                    results.append((fold_literal(node.key, e, consts, depth + 1), fold_literal(node.value, e, consts, depth + 1)))
+                else:
+                    results.append(fold_literal(node.elt, e, consts, depth + 1))
+                return
+            g = node.generators[i]
+            for item in fold_literal(g.iter, e, consts, depth + 1):
+                e2 = dict(e)
+                _bind_target(g.target, item, e2)
+                if all(fold_literal(c, e2, consts, depth + 1) for c in g.ifs):
+                    rec(i + 1, e2)
+                if len(results) > 100000:
+                    raise NotLiteral("too large")
+
+        rec(0, dict(env))
+        if isinstance(node, ast.DictComp):
+            return dict(results)
+        if isinstance(node, ast.SetComp):
+            return set(results)
+        return list(results)
+    if isinstance(node, ast.Call):
+        d = (dotted(node.func) or "").split(".")[-1]
+        args = [ev(a) for a in node.args if not isinstance(a, ast.Starred)]
+        if any(isinstance(a, ast.Starred) for a in node.args):
+            raise NotLiteral("star args")
+        kw = {k.arg: ev(k.value) for k in node.keywords}
+        simple = {"ord": ord, "chr": chr, "len": len, "str": str, "int": int, "float": float, "complex": complex, "tuple": tuple, "list": list, "set": set, "frozenset": frozenset, "dict": dict,
+                  "sorted": sorted, "reversed": lambda x: list(reversed(x)), "zip": lambda *a: list(zip(*a)), "enumerate": lambda x, start=0: list(enumerate(x, start)), "range": lambda *a: list(range(*a)),
+                  "abs": abs, "min": min, "max": max, "sum": sum, "round": round, "bool": bool}
+        try:
+            if d in simple:
+                return simple[d](*args, **kw)
+            if d == "product":
+                return list(itertools.product(*args, **kw))
+            if d == "permutations":
+                return list(itertools.permutations(*args, **kw))
+            if d == "combinations":
+                return list(itertools.combinations(*args, **kw))
+            if isinstance(node.func, ast.Attribute) and node.func.attr in ("join", "upper", "lower", "split", "index", "items", "keys", "values", "get") :
+                recv = ev(node.func.value)
+                res = getattr(recv, node.func.attr)(*args, **kw)
+                return list(res) if node.func.attr in ("items", "keys", "values") else res
+        except NotLiteral:
+            raise
+        except Exception as e:  # noqa
+            raise NotLiteral(str(e))
+        raise NotLiteral(f"call {d}")
+    raise NotLiteral(type(node).__name__)
+
+
+def _bind_target(target: ast.AST, value, env: dict) -> None:
+    if isinstance(target, ast.Name):
+        env[target.id] = value
+    elif isinstance(target, (ast.Tuple, ast.List)):
+        vals = list(value)
+        if len(vals) != len(target.elts):
+            raise NotLiteral("unpack")
+        for t, v in zip(target.elts, vals):
+            _bind_target(t, v, env)
+    else:
+        raise NotLiteral("target")
+
+
+def literal_to_ast(value) -> ast.AST:
+    if isinstance(value, dict):
+        return ast.Dict(keys=[literal_to_ast(k) for k in value], values=[literal_to_ast(v) for v in value.values()])
+    if isinstance(value, list):
+        return ast.List(elts=[literal_to_ast(v) for v in value], ctx=ast.Load())
+    if isinstance(value, tuple):
+        return ast.Tuple(elts=[literal_to_ast(v) for v in value], ctx=ast.Load())
+    if isinstance(value, (set, frozenset)):
+        return ast.Set(elts=[literal_to_ast(v) for v in sorted(value, key=repr)])
+    return ast.Constant(value=value)
